@@ -613,6 +613,33 @@ Later the same day the lead committed the three repairs to /repo (c1de492 undo s
   the corresponding findings are `fixed` in known_findings.jsonl; quick exits 0 with VERIF_SEED = default, 7, 99, 4242 (53-75 s);
   the only KNOWN-FINDING left is the leak of the second meaning after a rejected re-declaration (shape redeclares-defined-name; it
   shows when a later form uses the variable inside an if-branch, so seeds whose programs have no such use print no line).
+Strengthening (2026-10-04, later): ReplTab.tla (symbol table across steps, roll-back as an action) and ReplReader.tla (required grouping
+of input lines into steps), gen/replsess.py, phases `table' and `reader' of this file.
+  Unchanged tree: quick exit 0 with VERIF_SEED = default, 1, 2, 3 (90-110 s at load average 50-200; the two new phases take 12 s + 11 s
+  when the machine is idle enough); thorough 31 min at load average 150-220 (table 5412 sessions, reader 852 sessions / 3555 items).
+  Seeded changes (bin/seedtest): C13-1 (isChecked reset moved) caught by the histories of Repl.tla as before and by table sessions with
+  gap = 1; C13-2 (scoUndoStabEntry drops the whole entry) caught by 120 table sessions (45 overload-of-existing-name, 75
+  new-structured-type-overlapping-imports: `<<' / `f' lost after the roll-back); C13-3 (escape inside a literal never reset) caught by 8
+  packed reader sessions (every literal with `_').
+  Own mutations (scratch worktree /tmp/wt-c13s, removed), quick tier, all VIOLATION:
+    MA scan.c scanIsContinued: `case '_'' inside a string literal removed (`_"' ends the literal): 7 reader sessions.
+    MB scobind.c scoUndoStabLevel: `tblRemoveIf(stabLev->tbl, ...)' disabled (meanings of a rejected step stay in the table): 174 table
+       sessions (loop-fault: the stale meanings are used) + 112 histories of Repl.tla.
+    MC scobind.c scobindSetSigUse: the answer to `Redefine?' inverted: 34 table sessions (refused redefinitions take effect).
+  Negative controls inside TLC: ReplTabByName.cfg / ReplTabRetag.cfg (wrong roll-back designs) must violate TableAsWithout, else the
+  run is a machinery error.  Corrupted field: VERIF_C13_CORRUPT=1 additionally changes one output atom of one table session and one
+  expectation (`prints' -> `rejected') of one reader session: exactly those two sessions are reported.
+  Candidate repairs applied together in a worktree (hooks/candidate-C13-reader-comments.diff, -reader-escaped-newline.diff,
+  -reader-brace-definition.diff): all 184 reader sessions conform (the transcription in ReplScan.tla then differs from the code: drift).
+  hooks/candidate-C13-refused-redefinition-keeps-record.diff: the hand sessions of that finding behave as specified.
+  Not a finding (family / harness corrected instead): (1) `print << {1@SI +' / `2@SI} << newline' is a syntax error in a piled file too:
+  brace *expressions* across lines are not in the family (brace blocks are); (2) a `++' comment behind a statement gives a warning
+  (documentation without identifier): only `--' comments are generated, Required knows both; (3) after a rejected overload f: Boolean -> SI
+  the diagnostic of a later call f(true) changes its wording (`No one possible return type...' instead of `Argument 1 of f did not
+  match'): the form is rejected in both sessions, wording is not part of the property; (4) a form continued only by indentation after a
+  trailing operator (`1 +' / `   2') is cut by the line-at-a-time reader: stated as a family assumption, not reported; the line itself
+  is in the family as a rejected form (`trailop') that must not swallow its successor; (5) reader sessions are packed 12 items to a
+  session, so a cause tag of a recorded finding never excuses a packed session (READER_CAUSES).
 TLC -coverage cannot be used with Repl.tla (the cost-model construction does not terminate on AldorSem's nested operators);
   non-vacuity is shown by the exported history items per kind (evidence: history_items).
 """
